@@ -339,7 +339,8 @@ where
 
         let gcd = integer::gcd(sample_rate_input, sample_rate_output);
         let min_chunk_out = sample_rate_output / gcd;
-        let wanted_subsize = chunk_size_out / sub_chunks;
+        // Use fewer sub chunks if the chunk is too short to be split into the desired number.
+        let wanted_subsize = (chunk_size_out / sub_chunks).max(1);
         let fft_chunks = (wanted_subsize as f32 / min_chunk_out as f32).ceil() as usize;
         let fft_size_out = fft_chunks * sample_rate_output / gcd;
         let fft_size_in = fft_chunks * sample_rate_input / gcd;
@@ -520,7 +521,8 @@ where
 
         let gcd = integer::gcd(sample_rate_input, sample_rate_output);
         let min_chunk_in = sample_rate_input / gcd;
-        let wanted_subsize = chunk_size_in / sub_chunks;
+        // Use fewer sub chunks if the chunk is too short to be split into the desired number.
+        let wanted_subsize = (chunk_size_in / sub_chunks).max(1);
         let fft_chunks = (wanted_subsize as f32 / min_chunk_in as f32).ceil() as usize;
         let fft_size_out = fft_chunks * sample_rate_output / gcd;
         let fft_size_in = fft_chunks * sample_rate_input / gcd;
